@@ -47,11 +47,17 @@ class Report:
         """Fail closed: the rule could not analyse something it must understand."""
         return self.ob(rule, key, False, 'undecidable: ' + reason, site, None, config)
 
-    def floor(self, rule, what, n, floor, config='default'):
-        """A rule that matches fewer instances than were confirmed by hand must not pass."""
-        self.ob(rule + '.floor', what, n >= floor,
-                'instance count %d below the frozen floor %d (anchor missing or renamed?)' % (n, floor),
-                None, {'count': n, 'floor': floor}, config)
+    def floor(self, rule, what, n, floor, config='default', exact=False):
+        """A rule that matches far fewer instances than were confirmed by hand must not pass (a vanished anchor passes vacuously).
+
+        `floor` is the count confirmed on the pinned tree.  Counts of *sites* (comparisons, constructions, paths) legitimately
+        shrink a little when duplicated code is merged or a test is written in another form, so the alarm threshold for them
+        is three quarters of the confirmed count; inventories fixed by the Standard or the public API (labels, encodings, variant
+        decoders: exact=True) must be complete."""
+        need = floor if exact or floor <= 2 else max(2, (floor * 3) // 4)
+        self.ob(rule + '.floor', what, n >= need,
+                'instance count %d below the floor %d (confirmed on the pinned tree: %d; anchor missing or renamed?)' % (n, need, floor),
+                None, {'count': n, 'floor': need, 'confirmed': floor}, config)
 
     # ------------------------------------------------------------------
     def finish(self, level, explanation, assumptions=None, extra_cov=None):
